@@ -122,7 +122,21 @@ def fill(claim, na):
         "Not decided: coordinates, that schemdraw/LaTeX accept the emitted calls, empty connections.",
         "DESIGN.md section 4, C20",
     )
-    for pid in ( "C06", "C07", "C08", "C09", "C11", "C12", "C13",
+    claim(
+        "C08", "other",
+        "def-use provenance of result fields (inter-procedural through tuple positions), term identity of residual/chi-squared definitions, masked-view rule, mutation summaries for inputs",
+        "At each of the 8 result constructors the fields are traced to their definitions: frequencies = "
+        "data.get_frequencies(); residuals = _calculate_residuals(A, B) and pseudo_chisqr = _calculate_pseudo_chisqr(A, B) "
+        "with A = data.get_impedances() and B the reported impedances (producers behind tuples/records are followed by "
+        "position: KK fits record, fit worker tuple, BHT worker tuple); |residual|^2 is proved equal (sympy) to the "
+        "chi-squared summand and the three Boukamp weights to each other; every DataSet read in analysis/ uses the "
+        "unmasked default view; no public analysis entry point mutates its data set or circuit (fixpoint mutation "
+        "summaries, worker tuples followed).",
+        "Not decided: that the model impedances are a good fit; BHT worker's model impedance vs _calculate_model_impedance "
+        "term equality (noted). Trusted: name-resolution of result fields is by last textual binding.",
+        "DESIGN.md section 4, C08",
+    )
+    for pid in ( "C06", "C07", "C09", "C11", "C12", "C13",
                 "C17", "C18", "C19"):
         na(pid, NOT_YET)
     na("C10", "statistical behaviour of a heuristic pipeline (noise tracking, drift margin) on noisy inputs: quantifies over "
